@@ -105,7 +105,7 @@ class Trial:
                 self.recipe.append(('add', d, 'n%d_%d' % (rd, k), size))
             for (d, n) in list(a.store):
                 a.store[(d, os.fsencode(n).decode('latin1'))] = a.store[(d, n)]
-            r = a.run('sync', '--force-empty')
+            r = a.run('sync', '--force-empty', '--force-zero')
             self.recipe.append(('sync', r.rc))
             if r.rc != 0:
                 break
